@@ -7,6 +7,7 @@ import (
 	"net"
 	"os"
 	"reflect"
+	"sync"
 	"syscall"
 	"testing"
 	"time"
@@ -284,6 +285,105 @@ func caseWriteSeq(r *mon.Rec, idx int) {
 	r.Count("sequence_writes_checked", len(sents))
 }
 
+// stallConn: the first WriteTo does not return before the second one has completed (a socket whose send buffer is
+// full for a moment); frames are recorded when their WriteTo is entered, as the bytes then handed to the socket, and
+// again when it returns.
+type stallConn struct {
+	fakeConn
+	mu       sync.Mutex
+	entered  [][]byte
+	onReturn [][]byte
+	second   chan struct{}
+	n        int
+}
+
+func (c *stallConn) WriteTo(b []byte, a net.Addr) (int, error) {
+	c.mu.Lock()
+	k := c.n
+	c.n++
+	c.entered = append(c.entered, append([]byte{}, b...))
+	c.mu.Unlock()
+	if k == 0 {
+		select {
+		case <-c.second:
+		case <-time.After(10 * time.Second):
+		}
+	}
+	c.mu.Lock()
+	c.onReturn = append(c.onReturn, append([]byte{}, b...)) // what the socket would have sent if it copies late
+	c.mu.Unlock()
+	if k == 1 {
+		close(c.second)
+	}
+	return len(b), nil
+}
+
+// caseWriteOverlap: two goroutines write through one connection (a net.PacketConn may be used by several goroutines
+// at once); the first write is still inside the socket call when the second one is made.  Both datagrams leave as
+// their own well-formed frames, whenever the socket looks at the bytes it was handed.
+func caseWriteOverlap(r *mon.Rec, idx int) {
+	rng := r.Rand("writeoverlap", idx)
+	r.Eval(1)
+	rp := replay{"writeoverlap", idx}
+	r.Current(rp)
+	src := ip4(rng)
+	sp := port(rng)
+	fc := &stallConn{second: make(chan struct{})}
+	bound := &net.UDPAddr{IP: net.IP(append([]byte{}, src[:]...)), Port: sp}
+	type wr struct {
+		dst     [4]byte
+		dp      int
+		payload []byte
+	}
+	sizes := []int{0, 1, 7, 240, 300, 301, 548, 1400}
+	w := [2]wr{}
+	for i := range w {
+		w[i] = wr{ip4(rng), port(rng), payloadOf(rng, sizes[rng.IntN(len(sizes))]+rng.IntN(3), 4)}
+	}
+	pan, val, st := mon.Guard(func() {
+		c := nclient4.NewBroadcastUDPConn(fc, bound)
+		var wg sync.WaitGroup
+		wg.Add(1)
+		go func() {
+			defer wg.Done()
+			c.WriteTo(w[0].payload, &net.UDPAddr{IP: net.IP(w[0].dst[:]), Port: w[0].dp})
+		}()
+		for { // wait until the first write is inside the socket call
+			fc.mu.Lock()
+			n := fc.n
+			fc.mu.Unlock()
+			if n >= 1 {
+				break
+			}
+			time.Sleep(20 * time.Microsecond)
+		}
+		c.WriteTo(w[1].payload, &net.UDPAddr{IP: net.IP(w[1].dst[:]), Port: w[1].dp})
+		wg.Wait()
+	})
+	if pan {
+		r.Violate("C18:write-panic:"+mon.LibFrame(st), fmt.Sprint(val), rp)
+		return
+	}
+	if len(fc.entered) != 2 || len(fc.onReturn) != 2 {
+		r.Violate("C18:write-count", fmt.Sprintf("2 overlapping writes, %d frames handed to the socket", len(fc.entered)), rp)
+		return
+	}
+	// entered[0] is write 0, entered[1] write 1; onReturn[0] is write 1 (it returns first), onReturn[1] write 0
+	for _, c := range []struct {
+		what  string
+		frame []byte
+		w     wr
+	}{{"write 0 when handed to the socket", fc.entered[0], w[0]}, {"write 1 when handed to the socket", fc.entered[1], w[1]},
+		{"write 1 when the socket call returned", fc.onReturn[0], w[1]}, {"write 0 when the (stalled) socket call returned", fc.onReturn[1], w[0]}} {
+		if _, err := refframe.ValidateWritten(c.frame, src, c.w.dst, sp, c.w.dp, c.w.payload); err != nil {
+			r.Violate("C18:frame-invalid:overlap:"+classify(err), fmt.Sprintf("two overlapping writes on one connection (%d and %d bytes): %s: %v", len(w[0].payload), len(w[1].payload), c.what, err), rp)
+			return
+		}
+	}
+	r.Shape(fmt.Sprintf("woverlap %d %d", len(w[0].payload)/100, len(w[1].payload)/100), true)
+	r.Count("overlapping_writes_checked", 2)
+}
+
 var errScript = errors.New("scripted read error")
 
 // read side: a sequence of frames.
@@ -321,6 +421,20 @@ func caseRead(r *mon.Rec, idx int, gray bool) {
 			k = 14 + rng.IntN(5)
 		}
 		var b []byte
+		if !gray && len(f.Payload) >= 2 && rng.IntN(6) == 0 {
+			// choose the first payload word so that the checksum computes to zero: RFC 768 has it transmitted as all ones
+			f.Payload = append([]byte{}, f.Payload...)
+			f.Payload[0], f.Payload[1] = 0, 0
+			t := refframe.Build(f)
+			u := t[20:]
+			ph := []byte{t[12], t[13], t[14], t[15], t[16], t[17], t[18], t[19], 0, 17, u[4], u[5]}
+			u[6], u[7] = 0, 0
+			x := 0xffff - refframe.Sum16(ph, u)
+			f.Payload[0], f.Payload[1] = byte(x>>8), byte(x)
+			if t2 := refframe.Build(f); t2[26] == 0xff && t2[27] == 0xff {
+				r.Count("frames_with_all_ones_udp_checksum", 1)
+			}
+		}
 		switch k {
 		case 0, 1, 2: // plain valid
 		case 3: // IP options
@@ -507,6 +621,8 @@ func TestCheck(t *testing.T) {
 			caseWrite(r, rp.Idx)
 		case "writeseq":
 			caseWriteSeq(r, rp.Idx)
+		case "writeoverlap":
+			caseWriteOverlap(r, rp.Idx)
 		case "read":
 			caseRead(r, rp.Idx, false)
 		default:
@@ -517,6 +633,11 @@ func TestCheck(t *testing.T) {
 	for i := 0; i < r.Pick(3000, 200000); i++ {
 		if r.Mine(i) {
 			caseWriteSeq(r, i)
+		}
+	}
+	for i := 0; i < r.Pick(1500, 100000); i++ {
+		if r.Mine(i) {
+			caseWriteOverlap(r, i)
 		}
 	}
 	for n := 0; n <= 1500; n++ {
